@@ -54,3 +54,22 @@ Theorem C09_write_stacked_no_truncation : forall raw es,
   then Ok (CWriteStacked es (true_write_scd_len es) (4 * zlen es)) else Err E_INVALID_PACKET.
 Proof. exact mk_write_stacked_spec. Qed.
 Print Assumptions C09_write_stacked_no_truncation.
+
+(* TIE TO THE SOURCE TABLES (gen/ProtoTables.v, regenerated from device/src/u3v/protocol/cmd.rs and ack.rs on every
+   run): magic, the four command ids, the request-ack flag; and each command's acknowledge id in the source's
+   acknowledge table is its command id + 1. *)
+From Cam Require Import Ack ProtoTables P_Tables.
+
+Theorem C09_constants_from_source :
+  MAGIC = src_cmd_magic /\
+  lookup 0 src_cmd_id = Some ID_READ_MEM /\ lookup 1 src_cmd_id = Some ID_WRITE_MEM /\
+  lookup 2 src_cmd_id = Some ID_READ_MEM_STACKED /\ lookup 3 src_cmd_id = Some ID_WRITE_MEM_STACKED /\
+  lookup 0 src_cmd_flag = Some FLAG_REQUEST_ACK /\
+  length src_cmd_id = 4%nat.
+Proof. exact cmd_consts_src. Qed.
+Print Assumptions C09_constants_from_source.
+
+Theorem C09_ack_ids_follow_command_ids : forall k id, (0 <= k < 4) -> lookup k src_cmd_id = Some id ->
+  table_fn src_ack_kind 0 (id + 1) = Ok k.
+Proof. exact ack_ids_follow_cmd_ids. Qed.
+Print Assumptions C09_ack_ids_follow_command_ids.
